@@ -33,8 +33,10 @@ class Gen:
             return self.rng.choice(NAMES)
         if r < 0.84:
             return self.rng.choice(CONSTS)
-        if r < 0.90:
+        if r < 0.88:
             return self.rng.choice(TEMPLATE_STRS)
+        if r < 0.92:
+            return "(" + self.multi_piece_string() + ")"
         return self.rng.choice(NAMES) + "." + self.rng.choice(ATTRS)
 
     def expr(self, d=0):
@@ -83,6 +85,22 @@ class Gen:
                 return False
         return depth == 0
 
+    def multi_piece_string(self):
+        """a string literal written as adjacent pieces on several lines (only valid inside brackets), with or
+        without a comment after a piece"""
+        rng = self.rng
+        pieces = [rng.choice(['"req "', "'st %s'", '"a"', "'b '", '"${x}"']) for _ in range(rng.randint(2, 3))]
+        out = pieces[0]
+        for pc in pieces[1:]:
+            r = rng.random()
+            if r < 0.55:
+                out += "  # note\n        " + pc
+            elif r < 0.85:
+                out += "\n        " + pc
+            else:
+                out += " " + pc
+        return out
+
     def _compound(self, d):
         rng = self.rng
         k = rng.random()
@@ -97,6 +115,8 @@ class Gen:
             args = [E() for _ in range(rng.randint(0, 3))]
             if rng.random() < 0.25:
                 args.append("%s=%s" % (rng.choice(["k", "w"]), E()))
+            if rng.random() < 0.15:
+                args.insert(rng.randint(0, len(args)), self.multi_piece_string())
             if self.rich and rng.random() < 0.1:
                 args.append("*" + rng.choice(NAMES))
             if self.rich and rng.random() < 0.08:
@@ -229,6 +249,10 @@ class Gen:
                 last = None
             else:
                 last = self.simple_stmt(in_func, in_loop)
+                if rng.random() < 0.08 and len(last) == 1 and "#" not in last[0] and "\n" not in last[0]:
+                    more = self.simple_stmt(in_func, in_loop)      # two simple statements on one line
+                    if len(more) == 1 and "\n" not in more[0]:
+                        last = [last[0] + "; " + more[0]]
                 out.extend(last)
             if rng.random() < 0.05:
                 out.append("")
